@@ -275,7 +275,10 @@ def num_outs(rec):
 
 
 def other_outs(rec):
-    return [(o['l'], o['t']) for o in rec['outs'] if not o['l'].rsplit(':', 1)[1].startswith('num')]
+    """Booleans, integers and enumerators of a record (strings embed the printed numbers, which do change
+    under rescaling, and are not part of the comparison)."""
+    return [(o['l'], o['t']) for o in rec['outs']
+            if not o['l'].rsplit(':', 1)[1].startswith('num') and o['l'].rsplit(':', 1)[1] != 'str']
 
 
 def is_relation(e):
